@@ -108,7 +108,7 @@ func c15Run(text string, builds []run.Node, reps int, loose, multi bool) (string
 // C15: evaluation is deterministic apart from object member order.
 func TestC15_Determinism(t *testing.T) {
 	c := collector("C15", "determinism")
-	rapid.Check(t, func(t *rapid.T) {
+	check(t, func(t *rapid.T) {
 		doc := gen.Doc(t, gen.DocCfg{MaxDepth: 3, MaxFan: 4})
 		cfg := gen.ExprCfg{MaxDepth: 2, MaxSteps: 4, Funcs: true, Let: true, Arith: true, Compare: true}
 		g := &gen.G{T: t, Root: doc, Cfg: cfg}
@@ -261,7 +261,7 @@ func c15HistoryRun(calls []run.Call, schedules [][]int, loose, multi []bool) str
 // ones in particular -- does not influence the outcome of an evaluation.
 func TestC15_History(t *testing.T) {
 	c := collector("C15", "history")
-	rapid.Check(t, func(t *rapid.T) {
+	check(t, func(t *rapid.T) {
 		n := rapid.IntRange(2, 5).Draw(t, "nexpr")
 		calls := make([]run.Call, n)
 		loose := make([]bool, n)
